@@ -59,6 +59,14 @@ CLAIMED = {
          "For every registered instruction every assignment of a too-small depth to every non-empty subset of its operand stacks is enumerated, plus the all-present case and hand-listed failing guards, each on random states in which every stack, queue, graph and the bindings are non-empty; the complete before/after snapshots must satisfy the unfired rule (only operand stacks shrink, nothing gained or changed) or the fired rule (changes confined to the documented footprint).",
          "Trusted: design/footprint.tsv (compiled from the doc comments, cross-checked against the pinned tree) and the hand-listed guard cases in harness/src/props/c10.rs. Which of its own operands an unfired instruction consumes is unspecified.",
          "DESIGN.md section 4, C10"),
+ "C12": ("per-draw invariant PBT of the (unseedable) random code generator over a grid of sizes, bounds, instruction lists, binding tables and new-name probabilities",
+         "random_code_with_size for every n in 1..64 plus 100, 235, 1034, random_code for every bound 0..40, CODE.RAND over boundary operands x six max-points settings and decompose for k = 1..64, each under 45 settings and many draws; every draw must have the exact/bounded point count and admissible leaves, every first draw is stepped and printed/parsed, and a coverage assertion (every leaf kind, lists) guards against a degenerate generator.",
+         "Trusted: nothing beyond Item::size being cross-checked by our own point count. The generator uses thread_rng and cannot be seeded, so replay re-draws under the stored parameters; the coverage assertion has a false-alarm probability < 1e-30.",
+         "DESIGN.md section 4, C12"),
+ "C13": ("per-draw invariant PBT of the random value generators and RAND instructions over parameter grids incl. invalid parameters; one bounded-false-alarm coverage assertion",
+         "random_bool_vector over sizes 0..32/100/1000/negative x 111 sparsities incl. out-of-range, infinite and NaN; random_int_vector / random_float_vector over sizes x bound pairs (equal, reversed, full i32 range) x (mean, deviation) incl. 0, negative, infinite, NaN; the RAND instructions and NAME.RANDBOUNDNAME over operand/configuration tuples. Every draw: length, element range, TRUE count at the documented rounding, no vector for invalid parameters, operands consumed, nothing else touched; every bit position becomes TRUE within 700 draws.",
+         "Trusted: the rounding rule of BOOLVECTOR.RAND as stated in its unit test and code comment (two-decimal rounding, truncated product; neighbours accepted near ties). Unseedable generator: replay re-draws; hangs are detected by the supervising parent.",
+         "DESIGN.md section 4, C13"),
 }
 PENDING_REASON = "check not built yet in this round (work in progress, see DESIGN.md section 4 for the planned check)"
 
